@@ -986,10 +986,16 @@ impl DnsCache {
                     summary.records += 1;
                     let expire = rec.get_expire_time();
                     let refresh = rec.get_refresh_time();
-                    summary.earliest_expire =
-                        Some(summary.earliest_expire.map_or(expire, |e: u64| e.min(expire)));
-                    summary.earliest_refresh =
-                        Some(summary.earliest_refresh.map_or(refresh, |e: u64| e.min(refresh)));
+                    summary.earliest_expire = Some(
+                        summary
+                            .earliest_expire
+                            .map_or(expire, |e: u64| e.min(expire)),
+                    );
+                    summary.earliest_refresh = Some(
+                        summary
+                            .earliest_refresh
+                            .map_or(refresh, |e: u64| e.min(refresh)),
+                    );
                     if with_records {
                         records.push(CachedRecord {
                             map,
